@@ -78,7 +78,7 @@ def quiesce(w, extra='1/2'):
 
 # --------------------------------------------------------------------------- CAs in every claim state
 CA_STATES = ('not_started', 'wait_veto', 'normal_veto', 'normal_immediate', 'lost_waiting', 'moved', 'moved_lost_waiting',
-             'moved_twice', 'cannot_claim', 'bypassed', 'bypassed_lost_waiting', 'bypassed_moved', 'bypassed_cannot', 'bypassed_unstarted_lost')
+             'moved_twice', 'cannot_claim', 'bypassed', 'bypassed_lost_waiting', 'bypassed_moved', 'bypassed_cannot', 'bypassed_unstarted_lost', 'vetoed_cannot', 'vetoed_moved')
 
 
 def make_ca(w, node, state, addr, ident, aac=None, ex=None):
@@ -88,7 +88,7 @@ def make_ca(w, node, state, addr, ident, aac=None, ex=None):
     import j1939
     from ..ref import ids
     if aac is None:
-        aac = state in ('moved', 'lost_waiting', 'moved_lost_waiting', 'moved_twice')
+        aac = state in ('moved', 'lost_waiting', 'moved_lost_waiting', 'moved_twice', 'vetoed_moved')
     name = j1939.Name(arbitrary_address_capable=1 if aac else 0, industry_group=2, function=130, manufacturer_code=700, identity_number=ident)
     if state.startswith('bypassed'):
         # 'bypassed'                : claiming bypassed, operational on its preferred address at once
@@ -122,6 +122,13 @@ def make_ca(w, node, state, addr, ident, aac=None, ex=None):
     if state == 'wait_veto':
         w.run(until=w.now + T('1/20'))
         return ca, None
+    if state in ('vetoed_cannot', 'vetoed_moved'):
+        # the contending claim (lower NAME) arrives INSIDE the veto window of the first claim
+        w.run(until=w.now + T('1/20'))
+        low = j1939.Name(arbitrary_address_capable=0, identity_number=1).value
+        w.inject(node, (6 << 26) | (0xEE << 16) | (0xFF << 8) | addr, ids.name_bytes(low))
+        w.run(until=w.now + T('8/10'))
+        return ca, (addr + 1 if state == 'vetoed_moved' else None)
     w.run(until=w.now + T('4/10'))
     if state in ('normal_veto', 'normal_immediate'):
         return ca, addr
